@@ -477,3 +477,116 @@ pub fn listener_case(rt: RtKind, inherited: bool, clients: usize) -> Result<(), 
     let _ = std::fs::remove_dir_all(&dir);
     res
 }
+
+// ------------------------------------------------------------------------------------------------
+// listeners, order of events: for every client the driver decides whether the server side polls
+// `accept` BEFORE the client connects (the accept has to wait - and must do so without blocking
+// its thread, or nothing else on a single-threaded runtime ever runs) or after.  The inherited
+// descriptor comes in both modes a parent can leave it in: blocking (the default of a fresh
+// socket) and non-blocking.
+
+pub const LISTENER_MODES: [&str; 3] = ["bound", "inherited descriptor in blocking mode", "inherited descriptor in non-blocking mode"];
+
+/// All (runtime, mode, clients, order mask) combinations for up to `max_clients` clients.
+pub fn listener_order_cases(max_clients: usize) -> Vec<(RtKind, usize, usize, u32)> {
+    let mut v = Vec::new();
+    for rt in [RtKind::Tokio, RtKind::Smol] {
+        for mode in 0..LISTENER_MODES.len() {
+            for clients in 1..=max_clients {
+                for mask in 0..(1u32 << clients) {
+                    v.push((rt, mode, clients, mask));
+                }
+            }
+        }
+    }
+    v
+}
+
+macro_rules! listener_order_body {
+    ($z:ident, $path:expr, $mode:expr, $clients:expr, $mask:expr, $fail:expr, $ids:expr) => {{
+        use std::future::Future;
+        use zlink_core::Listener as _;
+        let mut l = if $mode == 0 {
+            $z::unix::bind(&$path).map_err(|e| $fail("sockets:bind-failed", format!("{e:?}")))?
+        } else {
+            let std_l = std::os::unix::net::UnixListener::bind(&$path).map_err(|e| $fail("sockets:harness", e.to_string()))?;
+            std_l.set_nonblocking($mode == 2).map_err(|e| $fail("sockets:harness", e.to_string()))?;
+            $z::unix::Listener::try_from(OwnedFd::from(std_l)).map_err(|e| $fail("sockets:listener-from-descriptor-failed", format!("{e:?}")))?
+        };
+        for i in 0..$clients {
+            let accept_first = $mask & (1 << i) != 0;
+            let (mut c, mut s) = if accept_first {
+                let mut acc = Box::pin(l.accept());
+                // one poll with no client around: it has to come back, and with Pending
+                let first = std::future::poll_fn(|cx| std::task::Poll::Ready(acc.as_mut().poll(cx).map(|r| r.map(|_| ())))).await;
+                if !first.is_pending() {
+                    return Err($fail("sockets:accept-completed-without-a-client", format!("client {i}: {first:?}")));
+                }
+                let c = $z::unix::connect(&$path).await.map_err(|e| $fail("sockets:connect-failed", format!("{e:?}")))?;
+                let s = acc.await.map_err(|e| $fail("sockets:accept-failed", format!("{e:?}")))?;
+                (c, s)
+            } else {
+                let c = $z::unix::connect(&$path).await.map_err(|e| $fail("sockets:connect-failed", format!("{e:?}")))?;
+                let s = l.accept().await.map_err(|e| $fail("sockets:accept-failed", format!("{e:?}")))?;
+                (c, s)
+            };
+            $ids.push(c.id());
+            $ids.push(s.id());
+            let m = message(i, 300, 'c');
+            c.send_call(&m).await.map_err(|e| $fail("sockets:send-failed", format!("{e:?}")))?;
+            let got = s.receive_call::<Pay>().await.map_err(|e| $fail("sockets:receiver-saw-a-broken-frame", format!("{e:?}")))?;
+            if got.method().x != m.method().x {
+                return Err($fail("sockets:corrupted-message-delivered", format!("client {i}")));
+            }
+            // and back, on the accepted connection
+            let back = message(i + 100, 40, 'r');
+            s.send_call(&back).await.map_err(|e| $fail("sockets:send-failed", format!("{e:?}")))?;
+            let got = c.receive_call::<Pay>().await.map_err(|e| $fail("sockets:receiver-saw-a-broken-frame", format!("{e:?}")))?;
+            if got.method().x != back.method().x {
+                return Err($fail("sockets:corrupted-message-delivered", format!("client {i}, reply direction")));
+            }
+        }
+        Ok(())
+    }};
+}
+
+fn listener_order_inner(rt: RtKind, mode: usize, clients: usize, mask: u32, dir: std::path::PathBuf) -> Result<(), (String, String)> {
+    let path = dir.join("s");
+    let fail = |c: &str, d: String| (c.to_string(), format!("{rt:?}, listener {}, {clients} client(s), accept-first mask {mask:#b}: {d}", LISTENER_MODES[mode]));
+    let mut ids: Vec<usize> = Vec::new();
+    match rt {
+        RtKind::Tokio => {
+            let trt = tokio::runtime::Builder::new_current_thread().enable_io().build().unwrap();
+            trt.block_on(async { listener_order_body!(zlink_tokio, path, mode, clients, mask, fail, ids) })?;
+        }
+        RtKind::Smol => {
+            async_io::block_on(async { listener_order_body!(zlink_smol, path, mode, clients, mask, fail, ids) })?;
+        }
+    }
+    let mut sorted = ids.clone();
+    sorted.sort();
+    sorted.dedup();
+    if sorted.len() != ids.len() {
+        return Err(fail("sockets:connection-ids-not-distinct", format!("{ids:?}")));
+    }
+    Ok(())
+}
+
+/// Runs on a thread of its own: a listener that blocks its thread in `accept` can only be noticed
+/// from outside (the watchdog turns the hang into a verdict; it decides nothing else).
+pub fn listener_order_case(rt: RtKind, mode: usize, clients: usize, mask: u32) -> Result<(), (String, String)> {
+    let dir = std::env::temp_dir().join(format!("zlink-verif-lo-{}-{:?}-{mode}-{clients}-{mask}", std::process::id(), rt));
+    let _ = std::fs::remove_dir_all(&dir);
+    std::fs::create_dir_all(&dir).map_err(|e| ("sockets:harness".to_string(), format!("{e}")))?;
+    let (tx, rx) = std::sync::mpsc::channel();
+    let d2 = dir.clone();
+    std::thread::spawn(move || {
+        let _ = tx.send(listener_order_inner(rt, mode, clients, mask, d2));
+    });
+    let res = match rx.recv_timeout(std::time::Duration::from_secs(8)) {
+        Ok(r) => r,
+        Err(_) => Err(("sockets:accept-blocks-its-thread".to_string(), format!("{rt:?}, listener {}, {clients} client(s), accept-first mask {mask:#b}: no progress within 8 s - an accept polled before the client connected never handed control back", LISTENER_MODES[mode]))),
+    };
+    let _ = std::fs::remove_dir_all(&dir);
+    res
+}
